@@ -529,6 +529,9 @@ def erased(prog, ex, P, tier):
     exp = [op[3] for op in v["ops"] if op[0].endswith("_t")]
     got = [d for d in tr.w.timeouts]
     ex.check("C16", got == exp[:len(got)], "timer durations %s, caller passed %s" % (got, exp))
+    # ... and every *_with_timeout call that was actually issued (not skipped because an upgrade failed) created its timer
+    issued = [o["op"][3] for o in sorted(tr.ops().values(), key=lambda x: x["start"]) if o["op"][0].endswith("_t") and not str(o["result"]).startswith("skipped")]
+    ex.check("C16", len(got) == len(issued), "timers created %s, *_with_timeout calls issued through erased handles with %s: a timeout was dropped or doubled" % (got, issued))
     # identity through the handle is the actor's
     a = tr.w.actors["A"]
 
